@@ -53,6 +53,36 @@ class C06(ObjCheck):
             ctx.shared["stages"][(um, backend)] = st_
         return st_
 
+    # -- explicit scenarios: multi-step patterns every run must contain (the generator reaches them only now and then) ---------------------
+    def scenarios(self):
+        P = [["open", 0, 1], ["login", 0, "USER"]]
+
+        def mk(i):      # private token objects through the storing paths, numbered so that values differ
+            return [["create", 0, "data", i % 4, True, True, [], None], ["gen", 0, "aes", True, True, [], None], ["create", 0, "aes", (i + 1) % 4, True, True, [], None],
+                    ["unwrap", 0, "generic", True, True, None, None], ["derive", 0, True, True, None], ["genpair", 0, "ec", True, True, 0, None]]
+        out = []
+        for backend in ("file", "db"):
+            # values stored in two / three different login sessions of one process (fresh IV per value, also across logins)
+            out.append({"umask": "0077", "backend": backend, "ops": P + mk(0) + [["logout", 0], ["login", 0, "USER"]] + mk(1)})
+            out.append({"umask": "0027", "backend": backend, "ops": P + mk(0)[:2] + [["logout", 0], ["login", 0, "USER"]] + mk(1)[:3] + [["logout", 0], ["login", 0, "USER"]] + mk(2)})
+            # SO login in between, PIN change, restart, re-initialisation of the library
+            out.append({"umask": "0077", "backend": backend, "ops": P + mk(0)[:3] + [["logout", 0], ["login", 0, "SO"], ["logout", 0], ["login", 0, "USER"]] + mk(1)[:3]})
+            out.append({"umask": "0022", "backend": backend, "ops": P + mk(0)[:3] + [["setpin", 0, 1]] + mk(1)[:3] + [["restart"], ["open", 0, 1], ["login", 0, "USER"]] + mk(2)[:3]})
+            out.append({"umask": "0007", "backend": backend, "ops": P + mk(0)[:2] + [["reinit"], ["open", 0, 1], ["login", 0, "USER"]] + mk(1)[:2] + [["close", 0], ["open", 0, 1], ["login", 0, "USER"]] + mk(2)[:2]})
+        return out
+
+    def extra(self, ctx, tier, shard, nshards):
+        for i, prog in enumerate(self.scenarios()):
+            if i % nshards != shard:
+                continue
+            try:
+                self.run_program(ctx, prog)
+                ctx.label("scenarios_run")
+            except Violation as v:
+                v.program = prog
+                return v
+        return None
+
     def budget(self, tier):
         return {"examples": 1600, "shards": 16, "maxlen": 28} if tier == "quick" else {"examples": 16000, "shards": 16, "maxlen": 48}
 
